@@ -12,12 +12,25 @@ CORPORA = {
     "refslice": dict(model="MC_RefSlice",
                      quick=dict(MaxLen=24, MaxDecl=40), thorough=dict(MaxLen=40, MaxDecl=56),
                      profiles=DEV_REL, place="both"),
+    "fields": dict(model="MC_Info", cfg="MC_Fields", quick={}, thorough={}, profiles=DEV_REL, place="both"),
+    "getters": dict(model="MC_Info", cfg="MC_Getters", quick=dict(MaxTags=3), thorough=dict(MaxTags=4), profiles=DEV_REL, place="end"),
+    "dst": dict(model="MC_Info", cfg="MC_Dst", quick=dict(DstExtra=9), thorough=dict(DstExtra=33), profiles=DEV_REL, place="both"),
+    "fb": dict(model="MC_Info", cfg="MC_Fb", quick={}, thorough={}, profiles=DEV_REL, place="both"),
     "load": dict(model="MC_Load", quick=dict(MaxT=72), thorough=dict(MaxT=160), profiles=DEV_REL, place="both"),
     "walk": dict(model="MC_Walk", quick=dict(MaxT=32), thorough=dict(MaxT=40), profiles=DEV_REL, place="both"),
 }
 
 # property -> list of corpus names; nontrivial rule used for evidence
 CHECKS = {
+    "C01": dict(corpora=["fields", "getters", "dst", "fb", "walk", "load"],
+                rule="union of the boot-information corpora (every kind, every declared size, all framebuffer type bytes, "
+                     "all walks); every call of every session is checked for crash/hang and for extents inside the owning tag"),
+    "C04": dict(corpora=["fields", "getters", "fb"],
+                rule="fields: every kind at its conformant size x 2 marker fills x 2 positions, every accessor; "
+                     "getters: all sequences of <= MaxTags tags over 6 kinds (duplicates use different fills); fb: all 256 type bytes"),
+    "C05": dict(corpora=["dst", "fb"],
+                rule="every variable-length kind x every declared size 0..base+3*elem+DstExtra and three sizes beyond the region, "
+                     "marker bytes in padding and in the neighbouring tag"),
     "C02": dict(corpora=["load"],
                 rule="cases = all (total size, reserved word, last-8-bytes type/size) in bounds + null pointer; "
                      "non-trivial = every case (each has a distinct specified outcome class or size)"),
